@@ -2351,10 +2351,11 @@ class FnTr:
         S = "Unit" if not cap_t else "(" + " × ".join(cap_t) + ")"
         ret_t = show_type(parse_type(sp.ret))
         doc = sp.doc or f"`{sp.file}::{sp.func}`, nested `{sp.nested}`"
-        tps = " ".join(f"({t} : Type)" for t in sp.tparams)
-        tpsi = " ".join(f"{{{t} : Type}} [Inhabited {t}]" for t in sp.tparams)
-        tapp = (" " + " ".join(sp.tparams)) if sp.tparams else ""
-        cbb = " ".join(b for b, _, _ in sp.callbacks.values())
+        # (numeric type parameters and pure function parameters of a closure are binders like those of a top-level function)
+        tps = " ".join(f"({t} : Type)" for t in self.all_tparams)
+        tpsi = tparam_binders(sp)
+        tapp = (" " + " ".join(self.all_tparams)) if self.all_tparams else ""
+        cbb = self.cbb
         Vt = self.Vt
         sig = " ".join(x for x in (tpsi, cbb) if x)
         sig = (" " + sig) if sig else ""
